@@ -287,8 +287,11 @@ class Workspace(AbstractContextManager):
         entity_kwargs.update(
             (k, kwargs[k]) for k in entity_kwargs.keys() & kwargs.keys()
         )
+        # an identifier asked for is the entity's, not its type's
         entity_type_kwargs.update(
-            (k, kwargs[k]) for k in entity_type_kwargs.keys() & kwargs.keys()
+            (k, kwargs[k])
+            for k in entity_type_kwargs.keys() & kwargs.keys()
+            if k != "uid"
         )
 
         if not isinstance(parent, (ObjectBase, Group, Workspace)):
@@ -300,7 +303,10 @@ class Workspace(AbstractContextManager):
             parent = parent.root
 
         # Assign the same uid if possible
-        if parent.workspace.get_entity(entity.uid)[0] is None:
+        if (
+            entity_kwargs.get("uid") is None
+            and parent.workspace.get_entity(entity.uid)[0] is None
+        ):
             entity_kwargs["uid"] = entity.uid
 
         entity_kwargs["parent"] = parent
